@@ -49,6 +49,7 @@ func runC12(c *Ctx, w *World, r *Report) {
 	names := []string{"bitmap.Of", "bitmap.OfMany", "bitmap.NewBuilder", "bitmap.(*Builder).Extend", "bitmap.(*Builder).Set", "bitmap.ToArray",
 		"bitmap.Get", "bitmap.Get1", "bitmap.SafeGet", "bitmap.SafeGet1"}
 	fns, ok := requireFuncs(w, r, names...)
+	ReportGrowZero(w, r, "Words", "bitmap.(*Builder).Extend", "bitmap.(*Builder).Set")
 	ReportScale(w, r, names...)
 	ReportPair(w, r, names...)
 	ReportRound(w, r, names...)
